@@ -6,7 +6,7 @@ from .. import gen
 from ..gen import Opt, schema_lines, LIST, MULTI, TITLE, KEYSTRVAL, COMMENTS
 
 THEOREMS = ["C16_dup_complete", "C16_dup_order", "C16_late_instance", "C16_late_default", "C16_sibling_frame",
-            "C16_other_option_frame", "C16_context_frame"]
+            "C16_other_option_frame", "C16_context_frame", "lens_frame", "C09_other_options_untouched"]
 PARTIAL = ("In the functional model a context is a value: absence of aliasing holds by construction and cannot be violated there. Proved: the copy is "
            "complete at every depth and every later section instance is built from it; updates through a reference leave sibling instances, other "
            "options and other contexts untouched. Real aliasing (a pointer into the caller's arrays, two instances sharing a buffer) is runtime "
